@@ -31,7 +31,8 @@
 //   - a call to another function of the same translation list is a call of its
 //     Lean definition; cmp.Or over errors is "first non-nil, all arguments
 //     evaluated"; validateProp(name, f) is `f()` (the name prefix is kept in
-//     the error text); validatePositive(name, v) is the intrinsic `v <= 0`
+//     the error text); errors.Annotate(err, format, …) is `wrapErr format err`
+//     (nil iff err is nil); validatePositive(name, v) is the intrinsic `v <= 0`
 //     (signed integers, durations) resp. `v == 0` (unsigned) — its own body
 //     uses reflection and is tied by syntactic facts and the differential run;
 //   - a struct type of the repository (and timeutil.Duration) becomes a Lean
@@ -954,6 +955,9 @@ func (c *fctx) call(x *ast.CallExpr) ex {
 			xs = append(xs, c.exprAs(a, types.Universe.Lookup("error").Type()))
 		}
 		return c.bindN(xs, func(s []string) string { return "(firstErr [" + strings.Join(s, ", ") + "])" })
+	case key == "github.com/AdguardTeam/golibs/errors.Annotate" && len(x.Args) >= 2:
+		// nil stays nil, anything else is wrapped (the format is kept as the prefix)
+		return c.bindN([]ex{c.expr(x.Args[1]), c.expr(x.Args[0])}, func(s []string) string { return "(wrapErr " + s[0] + " " + s[1] + ")" })
 	case strings.HasSuffix(key, "/internal/cmd.validateProp"):
 		name := c.expr(x.Args[0])
 		inner := c.thunk(x.Args[1])
